@@ -131,15 +131,18 @@ NoP == <<>>
 O1 == Outcomes(f, NoP, N, 1)
 WellScoped == Scoped(f, 0, VT(flv)) \/ (flv = "natreal" /\ Examinable(f, NoP))
 TypeOK == nc \in 0..MaxConn /\ nb \in 0..MaxBin /\ flv \in Flavours /\ Examinable(f, NoP)
-BoundStable == Outcomes(f, NoP, N, 2) = O1
-MonotoneN == LET o2 == Outcomes(f, NoP, N + 1, 1) IN
-             /\ ("F" \in O1 => "F" \in o2)
-             /\ (FV(f) = {} /\ O1 = {"T"} => o2 = {"T"})
-             /\ (FV(f) = {} /\ O1 = {"F"} => o2 = {"F"})
-RelFaithful == flv # "int" =>
-               LET o == Outcomes(RelF(f), RelPrems(f), N, 1) IN
-               /\ ("F" \in o) = ("F" \in O1)
-               /\ ("N" \in o) = ("N" \in O1)
+BoundStableAt(o1) == HasKind(f, "all") \/ HasKind(f, "exists") => Outcomes(f, NoP, N, 2) = o1
+MonotoneNAt(o1) == LET o2 == Outcomes(f, NoP, N + 1, 1) IN
+                   /\ ("F" \in o1 => "F" \in o2)
+                   /\ (FV(f) = {} /\ o1 = {"T"} => o2 = {"T"})
+                   /\ (FV(f) = {} /\ o1 = {"F"} => o2 = {"F"})
+RelFaithfulAt(o1) == flv # "int" =>
+                     LET o == Outcomes(RelF(f), RelPrems(f), N, 1) IN
+                     /\ ("F" \in o) = ("F" \in o1)
+                     /\ ("N" \in o) = ("N" \in o1)
+BoundStable == BoundStableAt(O1)
+MonotoneN == MonotoneNAt(O1)
+RelFaithful == RelFaithfulAt(O1)
 \* anchors: theorems and non-theorems of HOL that belong to the universe
 xN == Bd(0, "nat")
 xI == Bd(0, "int")
@@ -155,8 +158,11 @@ AnchorTrue == { QAll("x", "nat", Rel("less_eq", Nu("nat", 0), xN)),
                 QAll("y", "nat", QEx("x", "nat", Rel("less", Bd(1, "nat"), Plus("nat", Bd(0, "nat"), Nu("nat", 1))))) }
 \* true, but with a truncated or ring subtraction under a universal binder: only refutation is possible
 AnchorOneSided == { QAll("x", "int", Rel("less", Minus("int", xI, Nu("int", 1)), xI)) }
-AnchorsOK == /\ (f \in AnchorFalse => O1 = {"F"})
-             /\ (f \in AnchorTrue => IF f \in AnchorOneSided THEN O1 = {"N"} ELSE O1 = {"T"})
+AnchorsOKAt(o1) == /\ (f \in AnchorFalse => o1 = {"F"})
+                   /\ (f \in AnchorTrue => IF f \in AnchorOneSided THEN o1 = {"N"} ELSE o1 = {"T"})
+AnchorsOK == AnchorsOKAt(O1)
+\* the four oracle invariants with the reference verdict computed once (what the cfg files check)
+OracleOK == LET o1 == O1 IN BoundStableAt(o1) /\ MonotoneNAt(o1) /\ RelFaithfulAt(o1) /\ AnchorsOKAt(o1)
 
 \* ---------------------------------------------------------------- the universe as a set, and its emission
 RECURSIVE Reach(_)
